@@ -84,6 +84,16 @@ class Obj:
         return f"{self.kind}#{self.idx}"
 
 
+class EmptyObj(Obj):
+    """a resource whose value is falsy when it is created (an empty scratch-pad dict / list, 0, '')"""
+
+    def __bool__(self) -> bool:
+        return False
+
+    def __len__(self) -> int:
+        return 0
+
+
 def make_graph(spec: dict[str, Any], calls: dict[str, int], failed: dict[str, int] | None = None) -> dict[str, Any]:
     """spec: name -> {"async": bool, "cache": bool, "deps": [names]}; returns name -> Resource descriptor.
     Cycles are allowed (descriptors are created first, annotations patched afterwards)."""
@@ -106,16 +116,18 @@ def make_graph(spec: dict[str, Any], calls: dict[str, int], failed: dict[str, in
                     failed[name] = 1
                     raise RuntimeError(f"factory make_{name} failed (transient)")
 
+            cls_ = EmptyObj if cfg.get("falsy") else Obj
+
             async def _impl(kw: dict[str, Any]) -> Any:
                 await gate(f"make_{name}")
                 _maybe_fail()
                 calls[name] = calls.get(name, 0) + 1
-                return Obj(name, kw)
+                return cls_(name, kw)
 
             def _impl_sync(kw: dict[str, Any]) -> Any:
                 _maybe_fail()
                 calls[name] = calls.get(name, 0) + 1
-                return Obj(name, kw)
+                return cls_(name, kw)
 
             ns: dict[str, Any] = {"_impl": _impl, "_impl_sync": _impl_sync}
             exec(src, ns)  # noqa: S102
@@ -322,6 +334,11 @@ GRAPHS: dict[str, tuple[dict[str, Any], dict[str, list[str]], bool]] = {
     # name: (graph, injection, cyclic)
     "cached_async": ({"r": {"async": True, "cache": True}}, {"s1": ["r"], "s2": ["r"]}, False),
     "cached_sync": ({"r": {"async": False, "cache": True}}, {"s1": ["r"], "s2": ["r"]}, False),
+    # a cached resource whose value is falsy (an empty container): still ONE object for every step
+    "cached_falsy_async": ({"r": {"async": True, "cache": True, "falsy": True}}, {"s1": ["r"], "s2": ["r"]}, False),
+    "cached_falsy_sync": ({"r": {"async": False, "cache": True, "falsy": True}}, {"s1": ["r"], "s2": ["r"]}, False),
+    "cached_falsy_over_noncached": ({"n": {"async": False, "cache": False, "falsy": True}, "r": {"async": True, "cache": True, "falsy": True, "deps": ["n"]}},
+                                    {"s1": ["r"], "s2": ["r", "n"]}, False),
     "noncached_async": ({"n": {"async": True, "cache": False}}, {"s1": ["n"], "s2": ["n"]}, False),
     "noncached_sync": ({"n": {"async": False, "cache": False}}, {"s1": ["n"], "s2": ["n"]}, False),
     "shared_subdep": ({"z": {"async": True, "cache": False}, "x": {"async": True, "cache": False, "deps": ["z"]},
@@ -399,7 +416,7 @@ def programs(tier: str) -> list[Program]:
 
 
 RULE = ("dependency graphs over <=3 resources (sync/async factories with an inner suspension point, cached / "
-        "non-cached, one factory declared with both flags, shared sub-dependency, 1-, 2- and 3-cycles) injected into two steps that overlap and into two "
+        "non-cached, values that are falsy when created, one factory declared with both flags, shared sub-dependency, 1-, 2- and 3-cycles) injected into two steps that overlap and into two "
         "invocations of a num_workers=2 step, and resolutions that follow one that raised (factory with a transient fault, step "
         "retried) x all interleavings of factory and step suspension points; factory call "
         "counts, identities of injected objects and cycle errors are compared with the documented caching rules; "
